@@ -23,9 +23,31 @@ pub const NT: usize = 40;
 
 #[derive(Clone, Debug, Serialize, Deserialize, PartialEq)]
 pub enum Case {
-    Matrix { rows: usize, cols: usize, data: Vec<f32> },
+    Matrix {
+        rows: usize,
+        cols: usize,
+        data: Vec<f32>,
+        /// every entry is multiplied by 10^scale_exp (magnitude classes; 0 = as generated)
+        #[serde(default)]
+        scale_exp: i8,
+    },
     IntMatrix { rows: usize, cols: usize },
-    Sets { table: Vec<f32>, pairs: Vec<(Vec<u8>, Vec<u8>)> },
+    Sets {
+        table: Vec<f32>,
+        pairs: Vec<(Vec<u8>, Vec<u8>)>,
+        #[serde(default)]
+        scale_exp: i8,
+    },
+}
+
+/// `close_f32` on values divided by the magnitude class `s` of the case
+fn close_s(x: f32, y: f64, rel: f64, s: f64) -> bool {
+    x.is_finite() && (f64::from(x) / s - y / s).abs() <= rel * (y / s).abs().max(1.0)
+}
+
+fn scaled(data: &[f32], scale_exp: i8) -> (Vec<f32>, f64) {
+    let s = 10f64.powi(i32::from(scale_exp));
+    (data.iter().map(|v| (f64::from(*v) * s) as f32).collect(), s)
 }
 
 thread_local! {
@@ -82,7 +104,7 @@ const COMBS: [(StandardCombiner, &str); 3] = [
     (StandardCombiner::Bma, "bma"),
 ];
 
-fn check_matrix(rows: usize, cols: usize, data: &[f32], stats: &mut Stats) -> CheckResult {
+fn check_matrix(rows: usize, cols: usize, data: &[f32], s: f64, stats: &mut Stats) -> CheckResult {
     ensure!(data.len() == rows * cols, "harness/bad-case", "matrix case with wrong data length");
     let m = Matrix::new(rows, cols, data);
     ensure!(m.dim() == (rows, cols) && m.len() == data.len() && m.is_empty() == data.is_empty(), "matrix/dim", "dim/len/is_empty wrong for {rows}x{cols}");
@@ -94,7 +116,7 @@ fn check_matrix(rows: usize, cols: usize, data: &[f32], stats: &mut Stats) -> Ch
             Err(p) => return fail(format!("combiner/{name}/panic"), format!("{name} on {rows}x{cols} panicked: {p}")),
         };
         let shape = if rows == cols { "square" } else { "rectangular" };
-        ensure!(close_f32(got, want, 1e-4), format!("combiner/{name}/{shape}"), "{name} of {rows}x{cols} matrix {data:?} = {got}, definition gives {want}");
+        ensure!(close_s(got, want, 1e-4, s), format!("combiner/{name}/{shape}"), "{name} of {rows}x{cols} matrix {data:?} = {got}, definition gives {want}");
     }
     // name parsing of the combiner
     for (comb, name) in COMBS {
@@ -150,7 +172,7 @@ fn to_set<'a>(o: &'a Ontology, v: &[u8]) -> HpoSet<'a> {
     HpoSet::new(o, g)
 }
 
-fn check_sets(table: &[f32], pairs: &[(Vec<u8>, Vec<u8>)], stats: &mut Stats) -> CheckResult {
+fn check_sets(table: &[f32], pairs: &[(Vec<u8>, Vec<u8>)], scale: f64, stats: &mut Stats) -> CheckResult {
     ensure!(table.len() == NT * NT, "harness/bad-case", "table must have NT*NT entries");
     let symmetric = (0..NT).all(|i| (0..NT).all(|j| table[i * NT + j].to_bits() == table[j * NT + i].to_bits()));
     FLAT.with(|o| {
@@ -181,17 +203,17 @@ fn check_sets(table: &[f32], pairs: &[(Vec<u8>, Vec<u8>)], stats: &mut Stats) ->
                     Err(p) => return fail(format!("group/{name}/panic"), format!("set similarity of {ia:?} x {ib:?} panicked: {p}")),
                 };
                 let shape = if ia.is_empty() || ib.is_empty() { "empty" } else if ia.len() == ib.len() { "square" } else { "rectangular" };
-                ensure!(close_f32(g, want, 1e-4), format!("group/{name}/{shape}"), "GroupSimilarity({name}) of sets {ia:?} x {ib:?} = {g}, combination of the pair matrix gives {want}");
+                ensure!(close_s(g, want, 1e-4, scale), format!("group/{name}/{shape}"), "GroupSimilarity({name}) of sets {ia:?} x {ib:?} = {g}, combination of the pair matrix gives {want}");
                 ensure!(s.to_bits() == g.to_bits(), format!("group/{name}/hposet-similarity"), "HpoSet::similarity = {s}, GroupSimilarity = {g}");
                 if symmetric {
                     ensure!(
-                        (f64::from(rev) - f64::from(g)).abs() <= 1e-6 * want.abs().max(1.0),
+                        (f64::from(rev) - f64::from(g)).abs() / scale <= 1e-6 * (want / scale).abs().max(1.0),
                         format!("group/{name}/argument-order"),
                         "symmetric term similarity, but sim(A,B) = {g} and sim(B,A) = {rev} for {ia:?} x {ib:?}"
                     );
                 } else {
                     let want_rev = reference(*comb, ib.len(), ia.len(), &|i, j| f64::from(table[ib[i] * NT + ia[j]]));
-                    ensure!(close_f32(rev, want_rev, 1e-4), format!("group/{name}/transposed"), "sim(B,A) = {rev}, expected {want_rev}");
+                    ensure!(close_s(rev, want_rev, 1e-4, scale), format!("group/{name}/transposed"), "sim(B,A) = {rev}, expected {want_rev}");
                 }
                 ensure!(
                     c1.to_bits() == g.to_bits() && c2.to_bits() == g.to_bits() && crev.to_bits() == rev.to_bits(),
@@ -241,9 +263,21 @@ fn check_sets(table: &[f32], pairs: &[(Vec<u8>, Vec<u8>)], stats: &mut Stats) ->
 
 pub fn check(c: &Case, stats: &mut Stats) -> CheckResult {
     match c {
-        Case::Matrix { rows, cols, data } => check_matrix(*rows, *cols, data, stats),
+        Case::Matrix { rows, cols, data, scale_exp } => {
+            let (d, s) = scaled(data, *scale_exp);
+            if *scale_exp != 0 {
+                stats.label(if *scale_exp > 0 { "magnitude:huge" } else { "magnitude:tiny" });
+            }
+            check_matrix(*rows, *cols, &d, s, stats)
+        }
         Case::IntMatrix { rows, cols } => check_int_matrix(*rows, *cols, stats),
-        Case::Sets { table, pairs } => check_sets(table, pairs, stats),
+        Case::Sets { table, pairs, scale_exp } => {
+            let (t, s) = scaled(table, *scale_exp);
+            if *scale_exp != 0 {
+                stats.label(if *scale_exp > 0 { "magnitude:huge" } else { "magnitude:tiny" });
+            }
+            check_sets(&t, pairs, s, stats)
+        }
     }
 }
 
@@ -256,15 +290,20 @@ fn value() -> impl Strategy<Value = f32> {
     ]
 }
 
+/// one case in six is scaled to a far-away magnitude (sums of 90 entries stay below f32::MAX)
+fn scale() -> impl Strategy<Value = i8> {
+    prop_oneof![10 => Just(0i8), 1 => Just(30i8), 1 => Just(-30i8), 1 => -36i8..=33]
+}
+
 fn strategy() -> BoxedStrategy<Case> {
-    let matrix = (prop_oneof![8 => (0usize..=8, 0usize..=8), 1 => Just((1usize, 40usize)), 1 => Just((40usize, 1usize))], vec(value(), 64), vec(any::<u16>(), 64))
-        .prop_map(|((rows, cols), vals, picks)| {
+    let matrix = (prop_oneof![8 => (0usize..=8, 0usize..=8), 1 => Just((1usize, 40usize)), 1 => Just((40usize, 1usize))], vec(value(), 64), vec(any::<u16>(), 64), scale())
+        .prop_map(|((rows, cols), vals, picks, scale_exp)| {
             // few distinct values per matrix → duplicates / ties among maxima
             let data = (0..rows * cols).map(|i| vals[pick(picks[i % 64], 1 + (i % 7))]).collect();
-            Case::Matrix { rows, cols, data }
+            Case::Matrix { rows, cols, data, scale_exp }
         });
     let int_matrix = (0usize..=9, 0usize..=9).prop_map(|(rows, cols)| Case::IntMatrix { rows, cols });
-    let sets = (vec(value(), NT * NT), any::<bool>(), vec((prop_oneof![12 => vec(any::<u8>(), 0..=8), 1 => vec(any::<u8>(), 40..=90)], prop_oneof![12 => vec(any::<u8>(), 0..=8), 1 => vec(any::<u8>(), 40..=90)]), 1..=6)).prop_map(|(mut table, symmetric, pairs)| {
+    let sets = (vec(value(), NT * NT), any::<bool>(), vec((prop_oneof![12 => vec(any::<u8>(), 0..=8), 1 => vec(any::<u8>(), 40..=90)], prop_oneof![12 => vec(any::<u8>(), 0..=8), 1 => vec(any::<u8>(), 40..=90)]), 1..=6), scale()).prop_map(|(mut table, symmetric, pairs, scale_exp)| {
         if symmetric {
             for i in 0..NT {
                 for j in 0..i {
@@ -272,7 +311,7 @@ fn strategy() -> BoxedStrategy<Case> {
                 }
             }
         }
-        Case::Sets { table, pairs }
+        Case::Sets { table, pairs, scale_exp }
     });
     prop_oneof![5 => matrix, 1 => int_matrix, 4 => sets].boxed()
 }
@@ -282,7 +321,7 @@ impl Property for C05 {
         "C05"
     }
     fn rule(&self) -> String {
-        "Generated: (a) raw r x c matrices, r,c in 0..=8 plus 1x40 and 40x1, finite f32 entries drawn from few values per matrix (ties among maxima), through StandardCombiner::{FunSimAvg,FunSimMax,Bma}::calculate; integer matrices for rows()/cols()/dim()/len() against index arithmetic; (b) on a flat 40-term ontology: sequences of 1-6 pairs of term sets (sizes 0..=8, occasionally 31-40 members) and a user-supplied Similarity that looks pairs up in a generated 40x40 table (asymmetric or symmetrised), through GroupSimilarity::calculate and HpoSet::similarity; (c) the same sequence through one CachedSimilarity per combiner (second visit, transposed pair) and term-level (a,b),(b,a),(a,b). Oracle: the three definitions evaluated in f64 on M[i][j] = T[A_i][B_j] (ascending ids), tolerance 1e-4; 0 for an empty side; argument-order independence for symmetric tables (1e-6); cached results bit-identical to uncached. evaluations = combiner evaluations. Non-trivial = non-square non-empty matrix whose row-max mean differs from its column-max mean, or a set pair of unequal non-zero sizes; distinct by hash of the case.".into()
+        "Generated: (a) raw r x c matrices, r,c in 0..=8 plus 1x40 and 40x1, finite f32 entries drawn from few values per matrix (ties among maxima), one case in six scaled by 10^e, e in -36..=33 (compared after dividing by the scale), through StandardCombiner::{FunSimAvg,FunSimMax,Bma}::calculate; integer matrices for rows()/cols()/dim()/len() against index arithmetic; (b) on a flat 40-term ontology: sequences of 1-6 pairs of term sets (sizes 0..=8, occasionally 31-40 members) and a user-supplied Similarity that looks pairs up in a generated 40x40 table (asymmetric or symmetrised), through GroupSimilarity::calculate and HpoSet::similarity; (c) the same sequence through one CachedSimilarity per combiner (second visit, transposed pair) and term-level (a,b),(b,a),(a,b). Oracle: the three definitions evaluated in f64 on M[i][j] = T[A_i][B_j] (ascending ids), tolerance 1e-4; 0 for an empty side; argument-order independence for symmetric tables (1e-6); cached results bit-identical to uncached. evaluations = combiner evaluations. Non-trivial = non-square non-empty matrix whose row-max mean differs from its column-max mean, or a set pair of unequal non-zero sizes; distinct by hash of the case.".into()
     }
     fn assumptions(&self) -> Vec<String> {
         vec!["term similarities are finite (NaN entries are outside the domain: maxima are taken with '>')".into(), "f32 sums compared with f64 reference within 1e-4 relative".into()]
